@@ -9,7 +9,7 @@ last restore point — no table, no chain recursion).  Imports Base/Model/Spec/G
 -/
 open Plugins
 
-def nLocs : Nat := 40
+def nLocs : Nat := 52    -- 40 void*, 4 function pointers, 4 double*, 4 int**
 
 structure DState where
   flags : List (Nat × Bool) := [] -- enabled flag of every plugin object touched so far (default: enabled)
@@ -29,7 +29,18 @@ def renderChain (c : Chain) : String :=
 def namesLine (tag : String) (l : List String) : String :=
   if l.isEmpty then tag ++ " -" else tag ++ " " ++ " ".intercalate l
 
-def parseKind (s : String) : Kind := if s == "set" then .setPointer else .recording
+def parseKind (s : String) : Kind :=
+  if s == "set" then .setPointer else if s == "failpre" then .failingPre else .recording
+
+/-- the chain line plus the registry's own view (`countPlugins`, `getFirstPlugin`) -/
+def chainLines (c : Chain) : List String :=
+  [renderChain c,
+   match firstPlugin c with
+   | some p => s!"plugins {countPlugins c} first {p.id}"
+   | none => s!"plugins {countPlugins c} first sentinel"]
+
+def parseRunKind (s : String) : RunKind :=
+  if s == "sep" then .separate else if s == "ign" then .ignored else if s == "runign" then .ignoredRun else .normal
 
 def bodyOf (outcome : String) (sets : List (Loc × Val)) : List Stmt :=
   setsOf sets ++ (if outcome == "pass" then [] else [Stmt.stop])
@@ -45,25 +56,29 @@ def modelStep (d : DState) (op : List String) (_obs : List (List String)) : DSta
         | none => true
       let p : Plugin := { id := id, name := name, enabled := en, kind := parseKind kind }
       let c := install d.chain p
-      ({ d with chain := c }, [renderChain c])
+      ({ d with chain := c }, chainLines c)
     | none => (d, ["bad-op"])
   | ["remove", name] =>
     let c := regRemove name d.chain
-    ({ d with chain := c }, [renderChain c])
-  | ["reset"] => ({ d with chain := reset d.chain }, [renderChain []])
+    ({ d with chain := c }, chainLines c)
+  | ["reset"] => ({ d with chain := reset d.chain }, chainLines [])
   | ["newset", _] => ({ d with store := construct d.store }, [])
   | ["set", l, v] =>
     match l.toNat?, v.toNat? with
     | some l, some v => ({ d with pending := d.pending ++ [(l, 1000 + v)] }, [])
     | _, _ => (d, ["bad-op"])
-  | ["run", outcome] =>
+  | ["run", outcome, kind] =>
     let ss := d.pending
-    let r := runTest d.chain d.store (bodyOf outcome ss)
+    let k := parseRunKind kind
+    let r := runTestKind k d.chain d.store (bodyOf outcome ss)
+    -- the SetPointerPlugin does not write to the order log (its pre action is empty)
+    let logging := d.chain.filter (·.kind != .setPointer)
+    let ran := k != .ignored
     ({ d with store := r.store, pending := [] },
-     -- only the recording plugins write to the order log (the SetPointerPlugin's pre action is empty)
-     [namesLine "pre" (runAllPre (d.chain.filter (·.kind == .recording))),
-      namesLine "post" (runAllPost (d.chain.filter (·.kind == .recording))), s!"done {r.done}",
-      "result " ++ (if r.overflow then "overflow" else if r.failed then "fail" else "pass"),
+     [namesLine "pre" (if ran then runAllPre logging else []),
+      namesLine "post" (if ran then runAllPost logging else []), s!"done {r.done}",
+      -- the parent of a separate-process run only learns pass / fail
+      "result " ++ (if r.overflow && k != .separate then "overflow" else if r.failed then "fail" else "pass"),
       renderMem r.store.mem])
   | [e, id] =>
     if e == "enable" || e == "disable" then
@@ -71,12 +86,13 @@ def modelStep (d : DState) (op : List String) (_obs : List (List String)) : DSta
       | some id =>
         let b := e == "enable"
         let c := setEnabled id b d.chain
-        ({ d with flags := (id, b) :: d.flags.filter (·.1 != id), chain := c }, [renderChain c])
+        ({ d with flags := (id, b) :: d.flags.filter (·.1 != id), chain := c }, chainLines c)
       | none => (d, ["bad-op"])
     else if e == "get" then
-      match getByName id d.chain with
-      | some p => (d, [s!"got {p.id}"])
-      | none => (d, [if id == Gen.Plugins.nullName then "got sentinel" else "got none"])
+      match lookup id d.chain with
+      | .plugin p => (d, [s!"got {p.id}"])
+      | .sentinel => (d, ["got sentinel"])
+      | .none => (d, ["got none"])
     else (d, ["bad-op"])
   | _ => (d, ["bad-op"])
 
@@ -86,6 +102,7 @@ structure SPlugin where
   id : Nat
   name : String
   isSet : Bool
+  failsPre : Bool := false
 deriving BEq
 
 structure Shadow where
@@ -112,17 +129,30 @@ def Shadow.enabledNames (sh : Shadow) : List String :=
 def Shadow.activeSet (sh : Shadow) : Bool :=
   sh.installed.any (fun p => p.isSet && !sh.disabled.contains p.id)
 
+def Shadow.preFailure (sh : Shadow) : Bool :=
+  sh.installed.any (fun p => p.failsPre && !sh.disabled.contains p.id)
+
+/-- the registry's own view must agree with what is installed: `countPlugins` counts the installed
+    plugins (not the sentinel), `getFirstPlugin` is the most recently installed one or the sentinel -/
+def checkRegistryView (sh : Shadow) (o : Proto.Op) : Except String Unit := do
+  let want := match sh.installed.head? with
+    | some p => [toString sh.installed.length, "first", toString p.id]
+    | none => ["0", "first", "sentinel"]
+  if obsLine "plugins" o.obs != some want then
+    throw s!"countPlugins/getFirstPlugin report {(obsLine "plugins" o.obs).getD []}, installed are {sh.installed.length} plugins"
+
 def checkChain (sh : Shadow) (o : Proto.Op) : Except String Unit := do
   let some got := obsLine "chain" o.obs | throw "no chain observation"
   if dashList got != sh.chainWords then
     throw s!"chain is {dashList got}, expected {sh.chainWords} (most recently installed first)"
+  checkRegistryView sh o
 
 def specStep (sh : Shadow) (o : Proto.Op) : Except String Shadow := do
   match o.op with
   | ["skip"] => return sh
   | ["install", id, name, kind] =>
     let some id := id.toNat? | throw "bad install"
-    let sh' := { sh with installed := { id := id, name := name, isSet := kind == "set" } :: sh.installed }
+    let sh' := { sh with installed := { id := id, name := name, isSet := kind == "set", failsPre := kind == "failpre" } :: sh.installed }
     checkChain sh' o
     return sh'
   | ["remove", name] =>
@@ -141,6 +171,7 @@ def specStep (sh : Shadow) (o : Proto.Op) : Except String Shadow := do
       if kept.map (·.id) != gotIds then throw "remove reordered or invented plugins"
       if (sh.installed.filter (fun p => p.name != name && !gotIds.contains p.id)).length > 0 then
         throw s!"remove {name} removed a plugin with another name"
+      checkRegistryView { sh with installed := kept } o
       return { sh with installed := kept }
   | ["reset"] =>
     let sh' := { sh with installed := [] }
@@ -167,13 +198,20 @@ def specStep (sh : Shadow) (o : Proto.Op) : Except String Shadow := do
     -- without an active plugin are never undone, the pointers keep what they hold now
     return { sh with pending := 0, baseline := sh.now }
   | ["set", _, _] => return { sh with script := sh.script + 1 }
-  | ["run", outcome] =>
+  | ["run", outcome, kind] =>
     let some pre := obsLine "pre" o.obs | throw "no pre log"
     let some post := obsLine "post" o.obs | throw "no post log"
     let some [done] := obsLine "done" o.obs | throw "no done count"
     let some done := done.toNat? | throw "bad done count"
     let some [result] := obsLine "result" o.obs | throw "no result"
     let some mem := obsLine "mem" o.obs | throw "no mem"
+    if kind == "ign" then
+      -- an ignored test: no body, no plugin action, not a failure
+      if dashList pre != [] || dashList post != [] then throw "plugin actions ran for an ignored test"
+      if done != 0 then throw "the body of an ignored test ran"
+      if result != "pass" then throw "an ignored test was reported as failed"
+      if mem != sh.now then throw "an ignored test changed the pointers"
+      return { sh with script := 0 }
     -- order of the plugin actions
     let want := sh.enabledNames
     if dashList pre != want then throw s!"pre actions seen by {dashList pre}, expected {want} (installation-reversed, enabled only)"
@@ -184,10 +222,17 @@ def specStep (sh : Shadow) (o : Proto.Op) : Except String Shadow := do
     if nsets ≤ room then
       if done != nsets then throw s!"{done} of {nsets} redirections carried out although the table had room for {room}"
       if result == "overflow" then throw "table overflow reported below the limit"
-      if (result == "pass") != (outcome == "pass") then throw s!"test with outcome {outcome} reported as {result}"
+      -- a failure reported by a pre action fails the test (and stops nothing, see `done` above)
+      if (result == "pass") != (outcome == "pass" && !sh.preFailure) then throw s!"test with outcome {outcome} reported as {result}"
     else
       if done != room then throw s!"{done} redirections carried out, the table had room for {room}"
-      if result != "overflow" then throw s!"{nsets} redirections with room for {room}: the test did not fail with the table-limit failure"
+      -- (the parent of a separate-process run cannot see why the child failed)
+      if result != "overflow" && !(kind == "sep" && result == "fail") then
+        throw s!"{nsets} redirections with room for {room}: the test did not fail with the table-limit failure"
+    if kind == "sep" then
+      -- everything happened in the child: the caller's pointers and table are as before
+      if mem != sh.now then throw "a test run in a separate process changed the caller's pointers"
+      return { sh with script := 0 }
     -- restoring
     if sh.activeSet then
       if mem != sh.baseline then
